@@ -10,6 +10,7 @@ import AferoVerif.Engine.RoFs
 import AferoVerif.Engine.CowFs
 import AferoVerif.Engine.BpFs
 import AferoVerif.Engine.ReFs
+import AferoVerif.Engine.CacheFs
 open AferoVerif
 
 partial def loop {σ : Type} (h : IO.FS.Stream) (out : IO.FS.Stream) (step : σ → String → σ × String) (s : σ) : IO Unit := do
@@ -32,4 +33,5 @@ def main (args : List String) : IO UInt32 := do
   | ["cowfs"] => loop stdin stdout Engine.CowFs.stepLine {}; return 0
   | ["bpfs"] => loop stdin stdout Engine.BpFs.stepLine {}; return 0
   | ["refs"] => loop stdin stdout Engine.ReFs.stepLine {}; return 0
+  | ["cachefs"] => loop stdin stdout Engine.CacheFs.stepLine {}; return 0
   | _ => IO.eprintln "usage: driver <engine>"; return 2
